@@ -23,9 +23,16 @@ def exec_plans(exe, plans, log=False, timeout=60):
     os.unlink(path)
     r = {"rc": rc, "cls": None, "detail": "", "hash": None, "first_bad": None, "hashes": [], "neutral": [], "logs": [], "nlogs": [], "stderr": err}
     inflight = None
-    for line in out.splitlines():
-        if line.startswith("B "):
+    import re
+    for line in out.split("\n"):      # (not splitlines(): a debug build's raw trace bytes must not create pseudo-lines)
+        if re.match(r"^B -?\d+$", line):
             inflight = int(line[2:])
+        elif line.startswith("B "):
+            continue
+        elif line.startswith("R ") and not re.match(r"^R -?\d+ \S+ \S+ \S+$", line):
+            continue
+        elif line.startswith("V ") and not re.match(r"^V -?\d+ \S+ .", line):
+            continue
         elif line.startswith("R "):
             parts = line.split()
             r["hashes"].append(parts[3]); r["neutral"].append(parts[4]); inflight = None
